@@ -14,7 +14,7 @@ def parse(out):
     for l in out.split("\n"):
         if l.startswith("IN "): cur = {"size": int(l.split()[1]), "events": [], "calls": 0, "truncated": False}; res.append(cur)
         elif cur is None: continue
-        elif l.startswith("RET "): w = l.split(); cur["ret"] = int(w[1]); cur["usec"] = int(w[3]); cur["rsskb"] = int(w[5]); cur["maxreq"] = int(w[7]) if len(w) > 7 else 0
+        elif l.startswith("RET "): w = l.split(); cur["ret"] = int(w[1]); cur["usec"] = int(w[3]); cur["rsskb"] = int(w[5]); cur["maxreq"] = int(w[7]) if len(w) > 7 else 0; cur["sumreq"] = int(w[9]) if len(w) > 9 else 0
         elif l.startswith("CELLS "): cur["cells"] = int(l.split()[1])
         elif l == "C": cur["events"].append(("C",)); cur["calls"] += 1
         elif l.startswith("O "): cur["events"].append(("O", int(l.split()[1])))
@@ -103,6 +103,51 @@ def iff_variants(rng, data):
             yield "iff-chunk-length", data + ch
             yield "iff-chunk-length", data + ch + bytes(rng.randrange(256) for _ in range(rng.choice((1, 8, 40))))
 
+def declared_size_variants(rng, modgen):
+    """tiny module files of the packed-pattern formats whose tables DECLARE a lot: patterns with huge row counts and no data, a pattern
+    naming the highest channel followed by patterns that declare more rows than the format allows, many patterns sharing one
+    header, many instruments / samples with large declared lengths and no data behind them"""
+    import struct
+    # IT: raw patterns (rows, packed bytes)
+    for rows_list in ([4, 65535, 65535, 65535], [4] + [65535] * 7, [64, 1025, 1024, 200], [1, 32768], [65535], [4] + [1024] * 40):
+        for hi_chn_first in (True, False):
+            pats = []
+            for j, rows in enumerate(rows_list):
+                blob = (bytes([0xC0, 0x00]) if (j == 0 and hi_chn_first) else b"") + bytes(min(rows, 4) if j == 0 else 0)
+                pats.append((rows, blob))
+            song = dict(chn=rng.choice((1, 4, 64)), orders=list(range(min(len(pats), 200))), raw_patterns=pats, speed=6, bpm=125, name="declared rows")
+            yield "declared-rows-it", modgen.write_it(song)
+    # XM: header says many patterns / rows; S3M and MOD cannot declare rows
+    for rows in (256, 257, 1024, 65535):
+        try:
+            song = dict(chn=rng.choice((2, 32)), orders=[0, 1], raw_patterns=[(rows, 0, b""), (rows, 0, b"")], speed=6, bpm=125, restart=0, name="declared rows")
+            yield "declared-rows-xm", modgen.write_xm(song)
+        except Exception:
+            pass
+
+def med_synth_variants(rng, data):
+    """OctaMED modules with synth / hybrid instruments: the volume and waveform sequence tables (small programs with jumps, waits and
+    loops interpreted on every tick) rewritten to jump cycles of length 1, 2 and 3, jumps out of the table, and endless loops"""
+    import struct
+    if data[:3] != b"MMD" or len(data) < 64: return
+    song, smplarr = struct.unpack(">I", data[8:12])[0], struct.unpack(">I", data[24:28])[0]
+    if song + 788 > len(data) or smplarr == 0 or smplarr >= len(data): return
+    ns = data[song + 787]
+    progs = [bytes([0xfe, 2, 0xfe, 0, 0xff]), bytes([0xfe, 0]), bytes([0xfe, 4, 0, 0, 0xfe, 2, 0xff]), bytes([0xfe, 2, 0xfe, 4, 0xfe, 0]), bytes([0xfe, 0x7f]), bytes([0xfe, 0xff]),
+             bytes([0xf0, 1, 0xfe, 0]), bytes([0xf1, 0, 0xfe, 0]), bytes([0xfa, 0xfe, 1]), bytes([0x40, 0xfe, 1, 0xfe, 0])]
+    for prog in progs:
+        for which in (0, 1, 2):
+            b = bytearray(data); n = 0
+            for i in range(min(ns, 63)):
+                if smplarr + 4 * i + 4 > len(b): break
+                p = struct.unpack(">I", b[smplarr + 4 * i: smplarr + 4 * i + 4])[0]
+                if p == 0 or p + 22 + 256 > len(b): continue
+                if struct.unpack(">h", b[p + 4: p + 6])[0] not in (-1, -2): continue
+                if which in (0, 2): b[p + 22: p + 22 + len(prog)] = prog; b[p + 14: p + 16] = struct.pack(">H", max(len(prog), struct.unpack(">H", b[p + 14: p + 16])[0]))
+                if which in (1, 2): b[p + 150: p + 150 + len(prog)] = prog; b[p + 16: p + 18] = struct.pack(">H", max(len(prog), struct.unpack(">H", b[p + 16: p + 18])[0]))
+                b[p + 18] = b[p + 18] or 1; b[p + 19] = b[p + 19] or 1; n += 1
+            if n: yield "med-synth-table", bytes(b)
+
 def main():
     tier = sys.argv[1] if len(sys.argv) > 1 else "quick"
     replay = sys.argv[sys.argv.index("--replay") + 1] if "--replay" in sys.argv else None
@@ -151,6 +196,12 @@ def main():
             for f in byext.values():
                 for kind, blob in iff_variants(rng, open(f, "rb").read()):
                     p = os.path.join(tmpd, "v%05d" % k); k += 1; open(p, "wb").write(blob); jobs.append((p, "L", "mutant-" + kind))
+            for f in V.corpus_files():
+                if f.lower().endswith(".med") and os.path.getsize(f) < 300000:
+                    for kind, blob in med_synth_variants(rng, open(f, "rb").read()):
+                        p = os.path.join(tmpd, "v%05d" % k); k += 1; open(p, "wb").write(blob); jobs.append((p, "L", "mutant-" + kind))
+            for kind, blob in declared_size_variants(rng, modgen):
+                p = os.path.join(tmpd, "v%05d" % k); k += 1; open(p, "wb").write(blob); jobs.append((p, "L", "mutant-" + kind))
             songs = {}
             for i in range(60 if tier == "quick" else 1500):
                 fmt = ("mod", "xm", "s3m", "it")[i % 4]
@@ -196,6 +247,11 @@ def main():
             if not replay and p in songs: rep["format"], rep["song"] = songs[p]
             stats["max_mixer_iterations_over_bound"] = max(stats["max_mixer_iterations_over_bound"], x.get("mixratio", 0.0))
             stats["max_usec"] = max(stats["max_usec"], x["usec"]); stats["max_rsskb"] = max(stats["max_rsskb"], x["rsskb"])
+            ratio = x.get("sumreq", 0) / float(max(1, x["size"]))
+            if not lab.startswith("bomb") and x.get("maxreq", 0) < (64 << 20):
+                excess = x.get("sumreq", 0) - 2048 * x["size"]
+                top = stats.setdefault("largest_requests_beyond_2048x_input_MiB", [])
+                top.append((excess >> 20, "%s %s %d bytes, %d MiB requested" % (lab, os.path.basename(p), x["size"], x.get("sumreq", 0) >> 20))); top.sort(reverse=True); del top[6:]
             bad = None
             unpacked = (24 << 20) if lab.startswith("bomb") else 0          # the unpack ceiling allows what a container really expands to
             if "over-ceiling" in lab: unpacked = 512 << 20
@@ -204,6 +260,8 @@ def main():
             elif "over-ceiling" in lab and x["rsskb"] > (512 + 160) * 1024: bad = "peak resident set grew by %d MiB on a stream that must be refused at the 512 MiB ceiling" % (x["rsskb"] // 1024)
             elif "over-ceiling" not in lab and x["rsskb"] > rss_limit_kb(x["size"] + 8 * unpacked): bad = "%s grew the peak resident set by %d MiB on %d bytes" % ("load" if mode == "L" else "test", x["rsskb"] // 1024, x["size"])
             elif x.get("maxreq", 0) > (512 + 16) << 20: bad = "%s asked the allocator for %d MiB in one request on %d bytes of input (the library's unpack ceiling is 512 MiB)" % ("load" if mode == "L" else "test", x["maxreq"] >> 20, x["size"])
+            elif x.get("maxreq", 0) < (64 << 20) and x.get("sumreq", 0) > (64 << 20) + 2048 * (x["size"] + 8 * unpacked):
+                bad = "%s asked the allocator for %d MiB in all on %d bytes of input (no single request above 64 MiB: not a depacker's declared output buffer, which the unpack ceiling covers)" % ("load" if mode == "L" else "test", x["sumreq"] >> 20, x["size"])
             elif x.get("frame_usec", 0) > 2_000_000: bad = "the first frame took %.2f s" % (x["frame_usec"] / 1e6)
             elif x.get("mixratio", 0.0) > 1.0: bad = "the mixer's inner loop ran %.2f times the proved bound (maxvoc * 2 * ticksize iterations per tick, hook H5)" % x["mixratio"]
             elif x.get("worst_frame_usec", 0) > 400_000: bad = "one frame of the first 40 took %.2f s" % (x["worst_frame_usec"] / 1e6)
